@@ -2,6 +2,7 @@
 from __future__ import annotations
 
 import json
+import re
 import logging
 from typing import Any, Dict, List, Optional, Tuple
 
@@ -135,6 +136,23 @@ def ref_installable(filename: str) -> Optional[bool]:
             and any(pl.lower() in _REF_TAGS["plat"] for pl in plats))
 
 
+def ref_wheel(filename: str) -> Optional[Tuple[str, Any, str]]:
+    """Independent PEP 427 reading of a wheel FILE NAME: (name, version, build tag) or None if it is not a wheel
+    name of 5 or 6 dash-separated parts with a PEP 440 version ('_' in the version part stands for '-').  Names
+    outside that shape (other part counts, other extensions) are not judged: returns ("?", None, "")."""
+    from packaging.version import InvalidVersion, Version
+    if not filename.endswith(".whl"):
+        return ("?", None, "")
+    parts = filename[:-4].split("-")
+    if len(parts) not in (5, 6):
+        return ("?", None, "")
+    try:
+        v = Version(parts[1].replace("_", "-"))
+    except InvalidVersion:
+        return None
+    return (parts[0], v, parts[2] if len(parts) == 6 else "")
+
+
 def translate(ctx: Ctx) -> Dict[str, str]:
     import translate as _tr
     return {"gen/NameConsts.v": _tr.gen_name_consts(), "gen/C03Consts.v": tr_c03.gen_c03_consts()}
@@ -185,6 +203,17 @@ def gen_versions(rng, enc440) -> List[str]:
     return out
 
 
+def escape_wheel_version(rng, v: str) -> str:
+    """PEP 427: a '-' in the version part of a wheel name is written '_'.  `1.0.post1` can also be spelled `1.0-1`,
+    which a wheel file name carries as `1.0_1`; some plain finals get such an escaped post-release too."""
+    m = re.fullmatch(r"(.*)\.post(\d+)", v)
+    if m and rng.random() < 0.6:
+        return m.group(1) + "_" + m.group(2)
+    if re.fullmatch(r"[0-9.!]+", v) and rng.random() < 0.06:
+        return v + "_" + rng.choice(["1", "2"])
+    return v
+
+
 def gen_files(rng, enc440, versions: List[str], malformed: bool) -> List[str]:
     files: List[str] = []
     for v in versions:
@@ -194,7 +223,7 @@ def gen_files(rng, enc440, versions: List[str], malformed: bool) -> List[str]:
                 name = rng.choice(WRONG_WHEEL if wrong else WHEEL_NAMES)
                 py, abi, plat = rng.choice(GOOD_TAGS) if rng.random() < 0.75 else rng.choice(FOREIGN_TAGS)
                 bt = rng.choice(BUILD_TAGS)
-                files.append("-".join([name, v] + ([bt] if bt else []) + [py, abi, plat]) + ".whl")
+                files.append("-".join([name, escape_wheel_version(rng, v)] + ([bt] if bt else []) + [py, abi, plat]) + ".whl")
             else:
                 name = rng.choice(WRONG_SDIST if wrong else SDIST_NAMES)
                 files.append(name + "-" + v + rng.choice(SDIST_EXT))
@@ -242,7 +271,7 @@ def gen_focus_case(rng) -> Dict[str, Any]:
             if ch == "w":
                 py, abi, plat = rng.choice(GOOD_TAGS[:6] + _G[:3]) if rng.random() < 0.85 else rng.choice(FOREIGN_TAGS)
                 bt = rng.choice(["", "", "1", "2"])
-                files.append("-".join(["foo_bar", v] + ([bt] if bt else []) + [py, abi, plat]) + ".whl")
+                files.append("-".join(["foo_bar", escape_wheel_version(rng, v)] + ([bt] if bt else []) + [py, abi, plat]) + ".whl")
             else:
                 files.append("foo-bar-" + v + rng.choice(SDIST_EXT))
     rng.shuffle(files)
@@ -418,12 +447,26 @@ def correspondence(ctx: Ctx) -> None:
     lines: List[str] = []
     expect: List[Tuple[str, Dict[str, Any], str, Any]] = []
     seen_files: set = set()
+    seen_names: set = set()
     for origin, case in cases:
         obs, cands, repo = run_impl(mods, case)
         ls = case_lines(mods, case, cands)
         if ls is None:
             ctx.count("skipped:===")
             continue
+        by_file = {c.filename: c for c in cands}
+        for f in case["files"]:
+            rw = ref_wheel(f)
+            if (rw is not None and rw[1] is None) or f in seen_names:
+                continue
+            seen_names.add(f)
+            c = by_file.get(f)
+            got = None if c is None else "%s %s %s" % (c.name, c.version, c.extra_sort_info)
+            want = None if rw is None else "%s %s %s" % (rw[0], rw[1], rw[2])
+            ctx.count("wheel-name:" + ("candidate" if want else "rejected") + (":escaped-version" if "_" in f[:-4].split("-")[1] else ""))
+            ctx.case(key=("wheel-name", f), nontrivial=False)
+            if got != want:
+                ctx.mismatch("wheel-name-candidate", {"file": f}, got, want)
         for c in cands:
             ref = ref_installable(c.filename) if c.type == R.DistributionType.WHEEL else None
             if ref is None or c.filename in seen_files:
@@ -535,6 +578,17 @@ def oracle(mods, case: Dict[str, Any]) -> Optional[str]:
     import re
     canonicalize_name = lambda n: re.sub(r"[-_. ]", "-", n.lower())   # one separator class, no run collapsing
     obs, cands, repo = run_impl(mods, case)
+    listed = {c.filename for c in cands}
+    for f in case["files"]:
+        rw = ref_wheel(f)
+        if rw is not None and rw[1] is not None and f not in listed:
+            # a well-formed wheel name the code dropped: judged like any other candidate (name / version from the
+            # independent reading; installability from the file name as well)
+            parts = f[:-4].split("-")
+            cands.append(R.Candidate(rw[0], f, rw[1], R.WheelVersionTags(tuple(parts[-3].split("."))),
+                                     None if parts[-2] == "none" else parts[-2], parts[-1].split("."), None,
+                                     candidate_type=R.DistributionType.WHEEL, extra_sort_info=rw[2]))
+            listed.add(f)
     req = pkg_resources.Requirement.parse(case["req"])
     bad = set(case["unreadable"])
     want = canonicalize_name(req.name)
